@@ -436,19 +436,8 @@ class IrDriver(object):
                 L.append("    static_assert(%s_chk<%s>::ok, \"%s static size\");" % (det, view_t, name))
         L.append("  }")
 
-    def source(self, header_name):
-        types = self.all_types()
-        fns = []
-        types = [t for t in types if not t.name.is_anonymous]
-        for t in types:
-            if t.which_type == "structure":
-                fns.append(self.emit_struct_fn(t))
-        for t in types:
-            if t.which_type == "enumeration":
-                self.emit_enum(t)
-            elif t.which_type == "structure":
-                self.emit_struct_main(t)
-        helpers = r"""
+    def _helpers(self):
+        return r"""
 template <bool W, class F> static typename std::enable_if<W>::type verif_rw_if(F f) { verif_scalar_rw(f); }
 template <bool W, class F> static typename std::enable_if<!W>::type verif_rw_if(F) {}
 #ifndef VERIF_NO_TEXT
@@ -465,6 +454,20 @@ template <bool W, class V> static typename std::enable_if<W>::type verif_copy_if
 template <bool W, class V> static typename std::enable_if<!W>::type verif_copy_if(V) {}
 static int verif_static_constants = 0;
 """
+
+    def source(self, header_name):
+        types = self.all_types()
+        fns = []
+        types = [t for t in types if not t.name.is_anonymous]
+        for t in types:
+            if t.which_type == "structure":
+                fns.append(self.emit_struct_fn(t))
+        for t in types:
+            if t.which_type == "enumeration":
+                self.emit_enum(t)
+            elif t.which_type == "structure":
+                self.emit_struct_main(t)
+        helpers = self._helpers()
         parts = ([] if self.text else ["#define VERIF_NO_TEXT 1", "#define VERIF_NO_ENUM_TRAITS 1"]) + ['#include "%s"' % header_name, '#include "%s"' % header_name, PRELUDE, helpers]
         parts += self.decls
         parts += fns
@@ -478,6 +481,57 @@ static int verif_static_constants = 0;
         parts.append("  return verif_failures ? 3 : 0;")
         parts.append("}")
         return "\n".join(parts) + "\n"
+
+    def fuzz_source(self, header_name):
+        """A libFuzzer target over the same instantiation functions: the input selects a structure,
+        parameter values and an exact-size heap buffer; every checked member is then called on real
+        data (reads after Ok, writes of values read, text output and input, copy and equality against a
+        second buffer of another length).  Only byte-oriented structures are entry points."""
+        types = [t for t in self.all_types() if not t.name.is_anonymous]
+        fns = [self.emit_struct_fn(t) for t in types if t.which_type == "structure"]
+        helpers = self._helpers()
+        cases = []
+        entry = [t for t in types if t.which_type == "structure" and t.addressable_unit != 1]
+        for i, t in enumerate(entry):
+            cn = t.name.canonical_name
+            name = cn.object_path[-1]
+            scope = self.scope_prefix(cn)
+            args = []
+            for j, p in enumerate(t.runtime_parameter):
+                if p.type.which_type == "enumeration":
+                    args.append("static_cast<%s>(par[%d])" % (self.cpp_path(p.type.enumeration.name.canonical_name), j % 4))
+                else:
+                    args.append("par[%d]" % (j % 4))
+            pre = "".join(a + ", " for a in args)
+            fn = self.fn(t)
+            cases.append(
+                "    case %d: { auto w = %s::Make%sView(%sbuf, n); %s<true>(w, 0);\n"
+                "      auto w2 = %s::Make%sView(%sbuf2, n2); verif_use(w2.TryToCopyFrom(w)); verif_use(w.TryToCopyFrom(w2));\n"
+                "      if (w.Ok() && w2.Ok()) { verif_use(w.Equals(w2)); verif_use(w2.Equals(w)); }\n"
+                "      auto al = %s::MakeAligned%sView<unsigned char, 8>(%sabuf, n); %s<true>(al, 1); break; }" % (i, scope, name, pre, fn, scope, name, pre, scope, name, pre, fn)
+            )
+        body = r"""
+extern "C" int LLVMFuzzerTestOneInput(const unsigned char *data, std::size_t size) {
+  if (size < 6) return 0;
+  unsigned sel = data[0];
+  unsigned par[4] = {data[1], data[2], data[3], data[4]};
+  std::size_t n2 = data[5];
+  data += 6; size -= 6;
+  std::size_t n = size;
+  unsigned char *buf = new unsigned char[n]; if (n) std::memcpy(buf, data, n);
+  if (n2 > 2 * n + 4) n2 = n / 2;
+  unsigned char *buf2 = new unsigned char[n2]; for (std::size_t i = 0; i < n2; ++i) buf2[i] = i < n ? data[n - 1 - i] : static_cast<unsigned char>(i);
+  unsigned char *abuf = static_cast<unsigned char *>(aligned_alloc(16, ((n + 15) / 16 + 1) * 16)); if (n) std::memcpy(abuf, data, n);
+  switch (sel %% %d) {
+%s
+    default: break;
+  }
+  delete[] buf; delete[] buf2; free(abuf);
+  return 0;
+}
+""" % (max(1, len(entry)), "\n".join(cases))
+        parts = ['#include "%s"' % header_name, "#include <cstdlib>", PRELUDE, helpers] + self.decls + fns + [body]
+        return "\n".join(parts) + "\n", len(entry)
 
     def second_tu(self, header_name):
         """A second translation unit including the same header (ODR / missing inline)."""
